@@ -763,6 +763,13 @@ class Interp:
     def e_ListComp(self, node, frame):
         if len(node.generators) == 1 and not node.generators[0].ifs:
             it = self.eval(node.generators[0].iter, frame)
+            if getattr(it, "opaque_iteration", False):
+                # a list built from the labels of a symbolic index: its length and elements are unknown; the element expression is
+                # evaluated once on an opaque element so that anything unsupported inside it is still noticed
+                sub = Frame(frame.module, frame.func, parent=frame)
+                self.assign(node.generators[0].target, SOpaque("label of a symbolic index"), sub)
+                self.eval(node.elt, sub)
+                return SOpaque("list over a symbolic index")
             if isinstance(it, SSeq):
                 # [f(x) for x in seq]: same length; f is evaluated once on an arbitrary element
                 sub = Frame(frame.module, frame.func, parent=frame)
